@@ -954,8 +954,12 @@ func (sc *segmentController[T, O]) load(ctx context.Context, start, end time.Tim
 }
 
 func (sc *segmentController[T, O]) remove(deadline time.Time) (hasSegment bool, err error) {
-	ss, _ := sc.segments(context.Background(), false)
-	for _, s := range ss {
+	// Housekeeping does not pin: it only reads the immutable time range and calls delete(),
+	// which defers to the last holder by itself. Pinning "if already open" and then calling
+	// DecRef on every segment released a reference this pass never took whenever a query
+	// acquired a dormant segment in between, so the query's segment could be idle-closed or
+	// deleted while in use.
+	for _, s := range sc.copySegments() {
 		if s.Before(deadline) {
 			hasSegment = true
 			id := s.id
@@ -965,7 +969,6 @@ func (sc *segmentController[T, O]) remove(deadline time.Time) (hasSegment bool, 
 			sc.Unlock()
 			sc.l.Info().Stringer("segment", s).Msg("removed a segment")
 		}
-		s.DecRef()
 	}
 	return hasSegment, err
 }
@@ -987,15 +990,13 @@ func (sc *segmentController[T, O]) getExpiredSegmentsTimeRange() *timestamp.Time
 		IncludeStart: true,
 		IncludeEnd:   false,
 	}
-	ss, _ := sc.segments(context.Background(), false)
-	for _, s := range ss {
+	for _, s := range sc.copySegments() {
 		if s.Before(deadline) {
 			if timeRange.Start.IsZero() {
 				timeRange.Start = s.Start
 			}
 			timeRange.End = s.End
 		}
-		s.DecRef()
 	}
 	return timeRange
 }
@@ -1003,7 +1004,7 @@ func (sc *segmentController[T, O]) getExpiredSegmentsTimeRange() *timestamp.Time
 func (sc *segmentController[T, O]) deleteExpiredSegments(segmentSuffixes []string) int64 {
 	deadline := sc.clock.Now().Local().Add(-sc.opts.TTL.estimatedDuration())
 	var count int64
-	ss, _ := sc.segments(context.Background(), false)
+	ss := sc.copySegments() // no pinning, see remove
 	sc.l.Info().Str("segment_suffixes", fmt.Sprintf("%s", segmentSuffixes)).
 		Str("ttl", fmt.Sprintf("%d(%s)", sc.opts.TTL.Num, sc.opts.TTL.Unit)).
 		Str("deadline", deadline.String()).
@@ -1031,7 +1032,6 @@ func (sc *segmentController[T, O]) deleteExpiredSegments(segmentSuffixes []strin
 				Str("segment_time_range", s.GetTimeRange().String()).
 				Msg("segment is not expired or not in the time range, skipping deletion")
 		}
-		s.DecRef()
 	}
 	return count
 }
